@@ -76,6 +76,7 @@ fn run_trace(line: &str, dir: &str) -> String {
     let items: Vec<String> = parts[1].split(';').map(|s| s.trim().to_string()).filter(|s| !s.is_empty()).collect();
     let idle = idle_ms();
     shim::AUTO_SNAP.store(false, std::sync::atomic::Ordering::SeqCst);
+    shim::CFAULT_CREATE.store(0, std::sync::atomic::Ordering::SeqCst);
     shim::start(dir);
     shim::logline(format!("c open {}", cfg.join(" ")));
     let mut st: Option<Store> = match open_store(&cfg, dir) {
@@ -117,9 +118,43 @@ fn run_trace(line: &str, dir: &str) -> String {
             }
             "fault" => shim::add_fault(t[1], pu(t[2])),
             "autosnap" => shim::AUTO_SNAP.store(true, std::sync::atomic::Ordering::SeqCst),
+            "cfault" => {
+                // cfault create N: the N-th creation of a chunk file by the caller fails (disk full)
+                shim::CFAULT_CREATE.store(pu(t[2]), std::sync::atomic::Ordering::SeqCst);
+            }
+            "copyopen" => {
+                // the directory as it is now (lock file included) copied aside and opened in this
+                // very process while the original owner is still alive: a process-crash image
+                // restarted under a pid that is (still, or again) in use
+                shim::settle(idle);
+                // a sibling directory: its files are not the traced ones
+                let img = match dir.rsplit_once('/') {
+                    Some((parent, name)) => format!("{}/img-{}", parent, name),
+                    None => format!("img-{}", dir),
+                };
+                let _ = std::fs::remove_dir_all(&img);
+                std::fs::create_dir_all(&img).unwrap();
+                if let Ok(rd) = std::fs::read_dir(dir) {
+                    for e in rd.flatten() {
+                        let _ = std::fs::copy(e.path(), format!("{}/{}", img, e.file_name().to_string_lossy()));
+                    }
+                }
+                let r = open_store(&cfg, &img);
+                let line = match r {
+                    OpenRes::Ok(s) => {
+                        drop(s);
+                        "c copyopen ok".to_string()
+                    }
+                    OpenRes::Err(k) => format!("c copyopen err {}", kind_str(k)),
+                    OpenRes::Panic => "c copyopen panic".to_string(),
+                };
+                shim::logline(line);
+                let _ = std::fs::remove_dir_all(&img);
+            }
             "snap" => {
                 shim::settle(idle);
                 shim::logline(format!("c snap {}", disk_str(dir)));
+                shim::logline(format!("c lockfile {}", hex(&std::fs::read(format!("{}/LOCK", dir)).unwrap_or_default())));
             }
             "drop" => {
                 // dropping waits for the worker: it must be free to run
